@@ -2,10 +2,12 @@ package props
 
 import (
 	"bytes"
+	"fmt"
 	"testing"
 
 	gots "github.com/Comcast/gots/v2"
 	"github.com/Comcast/gots/v2/packet"
+	"github.com/Comcast/gots/v2/packet/adaptationfield"
 	"github.com/Comcast/gots/v2/pes"
 	"pgregory.net/rapid"
 
@@ -160,6 +162,55 @@ func c04EndToEnd(c CaseC04) *hx.Failure {
 		e2 := ref.EncodePCR(c.DTS, uint16(299-c.Ext))
 		if !bytes.Equal(p[6:12], e1[:]) || !bytes.Equal(p[12:18], e2[:]) {
 			return hx.Failf("e2e-af-bytes", "adaptation field PCR/OPCR bytes %x %x, ISO layout %x %x", p[6:12], p[12:18], e1[:], e2[:])
+		}
+	}
+	// every presence combination: PCR only, OPCR only, both; next to the other optional fields
+	for combo := 1; combo <= 3; combo++ {
+		for others := 0; others < 4; others++ {
+			m := &ref.Packet{Sync: 0x47, PID: 0x31, AFC: 3, AF: &ref.AF{Len: 40, RA: others&1 != 0}, Payload: bytes.Repeat([]byte{0x55}, 143)}
+			p := packet.Packet(m.MustBytes())
+			af, _ := p.AdaptationField()
+			if others&1 != 0 {
+				af.SetHasSplicingPoint(true)
+				af.SetSpliceCountdown(0x7A)
+			}
+			if others&2 != 0 {
+				af.SetHasTransportPrivateData(true)
+				af.SetTransportPrivateData([]byte{0xA9, 0x01, 0x02})
+			}
+			if combo&2 != 0 {
+				if err := af.SetHasOPCR(true); err != nil {
+					return hx.Failf("e2e-af", "SetHasOPCR(true): %v", err)
+				}
+				if err := af.SetOPCR(v2); err != nil {
+					return hx.Failf("e2e-af", "SetOPCR: %v", err)
+				}
+			}
+			if combo&1 != 0 {
+				if err := af.SetHasPCR(true); err != nil {
+					return hx.Failf("e2e-af", "SetHasPCR(true): %v", err)
+				}
+				if err := af.SetPCR(v); err != nil {
+					return hx.Failf("e2e-af", "SetPCR: %v", err)
+				}
+			}
+			what := fmt.Sprintf("PCR present %v, OPCR present %v, splice %v, private data %v", combo&1 != 0, combo&2 != 0, others&1 != 0, others&2 != 0)
+			if combo&1 != 0 {
+				if got, err := af.PCR(); err != nil || got != v {
+					return hx.Failf("e2e-pcr", "PCR() after SetPCR(%d) = (%d, %v) [%s]", v, got, err, what)
+				}
+				if fb, err := adaptationfield.PCR(&p); err != nil || gots.ExtractPCR(fb) != v {
+					return hx.Failf("e2e-pcr-func", "adaptationfield.PCR after SetPCR(%d) = (%x, %v) [%s]", v, fb, err, what)
+				}
+			}
+			if combo&2 != 0 {
+				if got, err := af.OPCR(); err != nil || got != v2 {
+					return hx.Failf("e2e-opcr", "OPCR() after SetOPCR(%d) = (%d, %v) [%s]", v2, got, err, what)
+				}
+				if fb, err := adaptationfield.OPCR(&p); err != nil || gots.ExtractPCR(fb) != v2 {
+					return hx.Failf("e2e-opcr-func", "adaptationfield.OPCR after SetOPCR(%d) = (%x, %v) [%s]", v2, fb, err, what)
+				}
+			}
 		}
 	}
 	// PTS/DTS through a PES header
